@@ -450,6 +450,9 @@ class StoreWorld:
         if self.backend == env.SQLITE:
             self.db = env.reuse_db("c15s")
         self.cds = self._new_app().client_data_store
+        # SQLite: a second process on the same database (purges behind the first one's back; reads with a cold cache)
+        self.other = self._new_app().client_data_store if self.backend == env.SQLITE else None
+        self.stale: dict = {}  # references purged by the other process: may still be served from the first one's cache
         self.vals = _store_values(self.n)
         self.model: dict = {}  # reference -> deep copy of the content it was created from
         self.issued: list = []  # (reference, snapshot) in order of creation
@@ -467,6 +470,8 @@ class StoreWorld:
                 ops.append(("mret", i))
             ops.append(("morig", i))
         ops += [("purge",), ("cold",)]
+        if self.backend == env.SQLITE:
+            ops.append(("opurge",))
         return ops
 
     def _alias(self, obj: Any) -> str:
@@ -476,15 +481,21 @@ class StoreWorld:
             return "object-returned-earlier"
         return "none"
 
-    def _check_resolve(self, ref: str) -> tuple | None:
+    def _check_resolve(self, ref: str, cds: Any = None) -> tuple | None:
         try:
-            obj = self.cds.resolve(ref)
+            obj = (cds or self.cds).resolve(ref)
         except KeyError:
             if ref in self.model:
                 return ({"clause": "store:live-reference-does-not-resolve"}, {"reference": ref}), None
             return None, None
         except Exception as e:  # noqa: BLE001
             return ({"clause": "store:resolve-raises", "error": type(e).__name__}, {"error": str(e)[:200]}), None
+        if ref not in self.model and ref in self.stale and cds is None:
+            # purged by the other process; this one may still hold the object in its cache: the content must be right
+            if not deq(obj, self.stale[ref]):
+                return ({"clause": "store:reference-resolves-to-changed-content", "alias": self._alias(obj)},
+                        {"got": crep(obj), "created_from": crep(self.stale[ref])}), obj
+            return None, obj
         if ref not in self.model:
             return ({"clause": "store:purged-reference-still-resolves"}, {"got": crep(obj)}), obj
         if not deq(obj, self.model[ref]):
@@ -507,6 +518,7 @@ class StoreWorld:
                     return {"clause": clause}, {"a": crep(snap), "b": crep(snap2), "ref_a": ref, "ref_b": ref2}
             self.issued.append((ref, snap))
             self.model[ref] = snap
+            self.stale.pop(ref, None)
             self.last_ref[i] = ref
             return None
         if kind == "res":
@@ -526,12 +538,19 @@ class StoreWorld:
         if kind == "purge":
             self.cds.purge()
             self.model.clear()
+            self.stale.clear()
+            return None
+        if kind == "opurge":
+            self.other.purge()
+            self.stale.update(self.model)
+            self.model.clear()
             return None
         if kind == "cold":
             if self.backend == env.MEM:
                 self.cds._deserialized_cache.clear()  # the store lives in the object: only the LRU goes cold
             else:
                 self.cds = self._new_app().client_data_store  # another process's view of the same database
+                self.stale.clear()
             return None
         raise ValueError(op)
 
@@ -544,6 +563,14 @@ class StoreWorld:
             bad, _ = self._check_resolve(ref)
             if bad:
                 return bad
+        if self.other is not None:
+            # every live reference resolves for a reader in another process as well (cold cache)
+            for ref in seen:
+                self.other._deserialized_cache.clear()
+                bad, _ = self._check_resolve(ref, self.other)
+                if bad:
+                    bad[0]["reader"] = "other-process"
+                    return bad
         return None
 
     def dump(self) -> str:
@@ -1017,7 +1044,7 @@ def run(ctx: Ctx) -> None:
         "all atoms; all such containers over small atoms and depth-1 containers) x 3 serializers x min_size_to_cache "
         "{1,L-1,L,L+1,1024} x disable_client_data_store x disable_cache_args {(),(x),(*)} x {mem,sqlite}, each read back "
         "on the worker side with a cold LRU and read again after all writes; store: every enabled operation sequence up "
-        "to the depth bound over serialize/resolve/mutate-returned/mutate-original/purge/cold for 2-3 values against a "
+        "to the depth bound over serialize/resolve/mutate-returned/mutate-original/purge/cold/purge-by-a-second-process (SQLite; the final read-out also from that process) for 2-3 values against a "
         "content-addressed model; identity: every spelling of f(a,b=1,*,c=2), g(x), h() incl. parallelize forms, every "
         "pair and every insertion order of all dicts over the adversarial key and value sets through compute_args_id "
         "with the SHA-256 pre-image recorded, and all pairs of real Call objects of two tasks. "
